@@ -8,6 +8,7 @@ CFG = {
     "theorems": [T + n for n in [
         "C07_wkb_erase", "C07_wkb_total", "C07_wkb_depth", "C07_wkb_alloc", "C07_wkb_alloc_spec", "C07_wkb_alloc_unfixed_false",
         "C07_wkb_decoded_encodable", "C07_reencode_stable", "C07_hex_total", "C07_hex_alloc",
+        "C07_json_total", "C07_json_guards", "C07_json_text_total", "C07_json_alloc",
     ]],
     "trusted_base": [
         "Lean 4.33.0 kernel; axioms of every theorem printed by #print axioms must be within {propext, Classical.choice, Quot.sound}",
